@@ -57,8 +57,31 @@ def shared_cmp():
     return _SHARED[0]
 
 
+_PROBLEMS = {}
+_TOGGLE = [0]
+
+
+def get_problem(con, dirs):
+    """Every other call reuses ONE Problem object per (nobjs, nconstrs) and re-declares its directions in place
+    (problem.directions[i] = ...), the way a user flips an objective on an existing problem; the other calls build
+    a fresh Problem.  Together with the shared comparator this exposes answers that depend on a stale view of the
+    problem's directions."""
+    from platypus import Direction
+    nc = 1 if con == 1 else (2 if con else 0)
+    _TOGGLE[0] += 1
+    if _TOGGLE[0] % 2:
+        return plat.mk_problem(len(dirs), dirs, nconstrs=nc)
+    key = (len(dirs), nc)
+    if key not in _PROBLEMS:
+        _PROBLEMS[key] = plat.mk_problem(len(dirs), dirs, nconstrs=nc)
+    p = _PROBLEMS[key]
+    for i, mx in enumerate(dirs):
+        p.directions[i] = Direction.MAXIMIZE if mx else Direction.MINIMIZE
+    return p
+
+
 def impl_compare(con, dirs, a, b):
-    p = plat.mk_problem(len(dirs), dirs, nconstrs=(1 if con == 1 else (2 if con else 0)))
+    p = get_problem(con, dirs)
     s1 = plat.mk_solution(p, a[0], a[1])
     s2 = plat.mk_solution(p, b[0], b[1])
     return shared_cmp().compare(s1, s2), p, s1, s2
@@ -147,6 +170,22 @@ def run(ctx):
         if rf != r:
             ctx.violation("compare-depends-on-comparator-history", "a comparator instance that has been used before answers %r, a fresh one %r, for %r %r dirs=%r constrained=%r" % (r, rf, a, b, dirs, con),
                           {"kind": "pair", "con": con, "dirs": dirs, "a": [list(map(repr, a[0])), repr(a[1])], "b": [list(map(repr, b[0])), repr(b[1])], "impl": r, "expected": exp, "note": "shared comparator instance; replay runs the whole sequence"})
+        # re-declare a random subset of objectives in place (negate the values on the same Solution objects, flip the
+        # direction on the same Problem object): the answer of the same comparator must not change
+        from platypus import Direction
+        J = [i for i in range(len(dirs)) if ctx.rng.random() < 0.5] or [0]
+        for i in J:
+            s1.objectives[i] = -s1.objectives[i]
+            s2.objectives[i] = -s2.objectives[i]
+            p.directions[i] = Direction.MINIMIZE if dirs[i] else Direction.MAXIMIZE
+        rj = shared_cmp().compare(s1, s2)
+        for i in J:
+            s1.objectives[i] = -s1.objectives[i]
+            s2.objectives[i] = -s2.objectives[i]
+            p.directions[i] = Direction.MAXIMIZE if dirs[i] else Direction.MINIMIZE
+        if rj != r:
+            ctx.violation("compare-changes-under-in-place-negation", "after negating objectives %r of both solutions and flipping their directions in place on the same problem, compare answers %r instead of %r for %r %r dirs=%r" % (J, rj, r, a, b, dirs),
+                          {"kind": "pair", "con": con, "dirs": dirs, "a": [list(map(repr, a[0])), repr(a[1])], "b": [list(map(repr, b[0])), repr(b[1])], "impl": r, "expected": exp, "note": "in-place re-declaration on a shared comparator; replay runs the whole sequence"})
         r2 = shared_cmp().compare(s2, s1)
         if r2 != -r:
             ctx.violation("compare-not-antisymmetric", "compare(b,a)=%r but compare(a,b)=%r for %r %r dirs=%r" % (r2, r, a, b, dirs),
